@@ -32,7 +32,7 @@ class Obl(object):
                  flags=None, timeout=600, mem_gb=8, paths=False, allow_fail=None,
                  bounds=None, units=None, stubs=None, kf=None, replay=True,
                  object_bits=None, checks="std", note="", assumptions=None,
-                 entry="harness", solver=None):
+                 entry="harness", solver=None, expect_unreached=None):
         self.name = name
         self.harness = harness
         self.defs = defs or []
@@ -54,6 +54,7 @@ class Obl(object):
         self.assumptions = assumptions or []
         self.entry = entry
         self.solver = solver
+        self.expect_unreached = expect_unreached   # regex: W: labels that this obligation prunes by construction
 
 
 # ----------------------------------------------------------------------------
@@ -363,6 +364,9 @@ def run_obligation(ob, work, extra_defs=(), want_trace_for=None):
         failed_P = [p for p in by["P"] + by["A"] if p["status"] == "FAILURE" and not allowed(p)]
         failed_M = [p for p in by["M"] if p["status"] == "FAILURE" and not allowed(p)]
         failed_U = [p for p in by["U"] if p["status"] == "FAILURE" and not allowed(p)]
+        if ob.expect_unreached:
+            eu = re.compile(ob.expect_unreached)
+            by["W"] = [p for p in by["W"] if not eu.search(p["description"])]
         unreached_W = [p for p in by["W"] if p["status"] != "FAILURE"]
         other = [p for p in props if p["status"] not in ("SUCCESS", "FAILURE")]
         res["witness_total"] = len(by["W"])
